@@ -2,7 +2,14 @@
    line per op, in exactly the format the harness prints for the implementation.
    Handles (StateDB instances) are numbered by the harness; roots are compared through labels:
    a root gets the index of its first occurrence in the case (harness: by hash; here: by the
-   content of the account trie over the case's address/slot universe). *)
+   content of the account trie over the case's address/slot universe).
+   Every handle is a ModelSnap.sstate (the StateDB with its snapshot fields); the snapshot tree is a
+   table root label -> chain of layers (ModelSnap.snap, a value), fed by scommit's hand-over exactly
+   as Commit feeds Tree.Update (+ its own Cap(root, 128)), capped by the harness's KP lines, and read
+   by its LR lines (each read is done twice: with a bloom filter that holds exactly what was added,
+   and with one that always hits; BLOOMDEP if that made a difference).  The table never forgets a
+   layer except where Cap(root, 0) replaces the whole tree: it holds at least the layers the
+   implementation's tree holds, and the harness only asks (LR) about layers the implementation has. *)
 open Conv
 
 let b01 b = if b then "1" else "0"
@@ -19,7 +26,8 @@ let str_answer = function
 let () =
   let lines = ref (read_lines stdin) in
   let next () = match !lines with [] -> None | l :: t -> lines := t; Some (tokens l) in
-  let hs : (int, state) Hashtbl.t = Hashtbl.create 16 in
+  let hs : (int, sstate) Hashtbl.t = Hashtbl.create 16 in
+  let tree : (int, snap) Hashtbl.t = Hashtbl.create 16 in
   let labels : (string, int) Hashtbl.t = Hashtbl.create 16 in
   let contents : (int, account fmap) Hashtbl.t = Hashtbl.create 16 in
   let ua = ref [] and uk = ref [] in
@@ -35,8 +43,40 @@ let () =
     | None -> let l = Hashtbl.length labels in Hashtbl.add labels key l; Hashtbl.replace contents l c; l in
   (* effectful read, threading the handle's state *)
   let rd h q =
-    let (s', a) = read (Hashtbl.find hs h) q in
+    let (s', a) = sstep (Hashtbl.find hs h) (ORead q) in
     Hashtbl.replace hs h s'; str_answer a in
+  let layer_of lab = if Hashtbl.mem tree lab then Some (n_of_int lab) else None in
+  let register regs = List.iter (fun (r, s) -> Hashtbl.replace tree (int_of_n r) s) regs in
+  let fp_none (_ : bkey) = false and fp_all (_ : bkey) = true in
+  (* every account and slot of the universe read from the layer kept for a root *)
+  let layer_read lab =
+    match Hashtbl.find_opt tree lab with
+    | None -> "NOLAYER"
+    | Some s0 ->
+      let cur = ref s0 in
+      let bloomdep = ref false in
+      let per a =
+        let (s1, acc) = snap_account fp_none !cur a in
+        let (_, acc') = snap_account fp_all !cur a in
+        cur := s1;
+        let sl = List.map (fun k ->
+            let (s2, v) = snap_storage fp_none !cur a k in
+            let (_, v') = snap_storage fp_all !cur a k in
+            cur := s2;
+            if v <> v' then bloomdep := true;
+            sn v) !uk in
+        let same = (match acc, acc' with
+            | None, None -> true
+            | Some x, Some y -> x.ac_nonce = y.ac_nonce && x.ac_balance = y.ac_balance && x.ac_code = y.ac_code
+            | _ -> false) in
+        if not same then bloomdep := true;
+        let hd = (match acc with
+            | None -> "-"
+            | Some d -> Printf.sprintf "%s,%s,%s" (sn d.ac_nonce) (string_of_z d.ac_balance) (sn d.ac_code)) in
+        Printf.sprintf "A%s:%s;%s" (sn a) hd (String.concat "." sl) in
+      let line = String.concat " " (List.map per !ua) in
+      Hashtbl.replace tree lab !cur;
+      if !bloomdep then "BLOOMDEP " ^ line else line in
   let acct h a =
     let e = rd h (QExist a) in let m = rd h (QEmpty a) in
     let b = rd h (QBalance a) in let nn = rd h (QNonce a) in
@@ -71,18 +111,20 @@ let () =
     | None -> ()
     | Some [] -> loop ()
     | Some ("CASE" :: id :: "A" :: a1 :: a2 :: a3 :: "K" :: k1 :: k2 :: k3 :: _) ->
-      Hashtbl.reset hs; Hashtbl.reset labels; Hashtbl.reset contents;
+      Hashtbl.reset hs; Hashtbl.reset labels; Hashtbl.reset contents; Hashtbl.reset tree;
       ua := [n a1; n a2; n a3]; uk := [n k1; n k2; n k3];
       ignore (label_of fempty);
-      Hashtbl.replace hs 0 (new_state fempty);
+      (* snapshot.New on the empty database: one disk layer for the empty root (label 0), generator finished *)
+      Hashtbl.replace tree 0 { sn_diffs = []; sn_disk = empty_disk (n_of_int 0) };
+      Hashtbl.replace hs 0 (snew_state fempty (layer_of 0));
       Printf.printf "CASE %s\n" id; loop ()
     | Some (hstr :: code :: rest) ->
       let h = int_of_string hstr in
       let (args, spec) = match List.rev rest with
         | sp :: ra -> (List.rev ra, sp) | [] -> failwith "missing dump spec" in
-      if not (Hashtbl.mem hs h) then Hashtbl.replace hs h (new_state fempty);
+      if not (Hashtbl.mem hs h) then Hashtbl.replace hs h (snew_state fempty None);
       let st () = Hashtbl.find hs h in
-      let apply o = let (s', a) = step (st ()) o in Hashtbl.replace hs h s'; str_answer a in
+      let apply o = let (s', a) = sstep (st ()) o in Hashtbl.replace hs h s'; str_answer a in
       let res = match code, args with
         | "CA", [a] -> apply (OCreateAccount (n a))
         | "AB", [a; v] -> apply (OAddBalance (n a, z_of_string v))
@@ -100,25 +142,48 @@ let () =
         | "AS", [a; k] -> apply (OAddSlotAL (n a, n k))
         | "TS", [a; k; v] -> apply (OSetTransient (n a, n k, n v))
         | "TX", [th; ti] -> apply (OSetTxContext (n th, n ti))
-        | "SN", [] -> (match step (st ()) OSnapshot with
+        | "SN", [] -> (match sstep (st ()) OSnapshot with
             | (s', AN id) -> Hashtbl.replace hs h s'; "i" ^ sn id
             | _ -> failwith "snapshot")
         | "RV", [id] -> apply (ORevert (n id))
         | "FI", [de] -> apply (OFinalise (bool_of de))
         | "IR", [de] ->
-          let (s', _) = step (st ()) (OIntermediateRoot (bool_of de)) in
-          Hashtbl.replace hs h s'; Printf.sprintf "r%d" (label_of s'.st_trie)
+          let (s', _) = sstep (st ()) (OIntermediateRoot (bool_of de)) in
+          Hashtbl.replace hs h s'; Printf.sprintf "r%d" (label_of s'.ss_st.st_trie)
         | "CM", [de] ->
-          let (s', c) = commit (bool_of de) (st ()) in
-          Hashtbl.replace hs h s'; Printf.sprintf "r%d" (label_of c)
-        | "CP", [nh] -> Hashtbl.replace hs (int_of_string nh) (copy (st ())); "-"
+          let ((s', c), ho) = scommit (bool_of de) (st ()) in
+          Hashtbl.replace hs h s';
+          let root = label_of c in
+          (* Commit: if parent := s.snap.Root(); parent != root { snaps.Update(root, parent, ...); snaps.Cap(root, 128) } *)
+          (match ho with
+           | Some o when int_of_n o.ho_parent <> root ->
+             (match Hashtbl.find_opt tree (int_of_n o.ho_parent) with
+              | Some parent ->
+                let updated = snap_update parent (n_of_int root) o.ho_destructs o.ho_accs o.ho_stos in
+                Hashtbl.replace tree root (tree_update parent (n_of_int root) o);
+                register (snap_cap_regs updated (nat_of_int 128))
+              | None -> ())     (* "parent snapshot missing" *)
+           | _ -> ());
+          Printf.sprintf "r%d" root
+        | "CP", [nh] -> Hashtbl.replace hs (int_of_string nh) (scopy (st ())); "-"
         | "NW", [nh; lab] ->
           (* a label the model never produced can only follow an earlier model/impl mismatch *)
-          let c = (match Hashtbl.find_opt contents (int_of_string lab) with Some c -> c | None -> fempty) in
-          Hashtbl.replace hs (int_of_string nh) (new_state c); "-"
+          let l = int_of_string lab in
+          let c = (match Hashtbl.find_opt contents l with Some c -> c | None -> fempty) in
+          Hashtbl.replace hs (int_of_string nh) (snew_state c (layer_of l)); "-"
+        | "KP", [lab; layers] ->
+          let l = int_of_string lab and k = nat_of_int (int_of_string layers) in
+          (match Hashtbl.find_opt tree l with
+           | Some s ->
+             let regs = snap_cap_regs s k in
+             if k = O then (match regs with [] -> () | _ -> Hashtbl.reset tree; register regs)
+             else (Hashtbl.replace tree l (snap_cap s k); register regs)
+           | None -> ());
+          "-"
+        | "LR", [lab] -> layer_read (int_of_string lab)
         | "DU", [] -> "-"
         | _ -> failwith ("bad line: " ^ String.concat " " (hstr :: code :: rest)) in
-      let crashed = (Hashtbl.find hs h).st_crashed in
+      let crashed = (Hashtbl.find hs h).ss_st.st_crashed in
       let res = if crashed then "CRASH" else res in
       print_endline (res ^ "|" ^ dump h spec); loop ()
     | Some l -> failwith ("bad line: " ^ String.concat " " l)
